@@ -666,6 +666,14 @@ class Interp:
             else:
                 raise Unsupported(f'invariant-cut for-loop over {type(iterable).__name__}')
         idx_name = spec.index or (st.target.id if kind == 'for' and counter[0] == 'range' and isinstance(st.target, ast.Name) else f'__i{ordinal}')
+        enum_index = None
+        if (kind == 'for' and counter[0] == 'seq' and isinstance(counter[1], lib.SymEnumerate) and isinstance(st.target, ast.Tuple)
+                and st.target.elts and isinstance(st.target.elts[0], ast.Name) and counter[1].start == 0):
+            # `for i, x in enumerate(xs)`: the index variable of the code is the loop counter, exactly as in
+            # `for i in range(len(xs))` (so an invariant written over i survives this refactoring in either direction)
+            enum_index = st.target.elts[0].id
+            if spec.index is None:
+                idx_name = enum_index
         saved_target = None
         if kind == 'for':
             if counter[0] == 'range':
@@ -719,6 +727,8 @@ class Interp:
             if kind == 'for' and counter[0] == 'range' and isinstance(st.target, ast.Name) and idx_name == st.target.id:
                 # python leaves the last produced value in the target; not tracked: poison it
                 fr.locals[st.target.id] = lib.Poison(f'for-target {st.target.id} after loop')
+            if enum_index is not None and idx_name == enum_index:
+                fr.locals[enum_index] = lib.Poison(f'for-target {enum_index} after loop')
             self.exec_block(st.orelse, fr)
             return
         if spec.decreases is not None:
@@ -783,7 +793,14 @@ class Interp:
                 pass        # any failure of the merged evaluation (forks needed, partial operation outside its guard): fall back
             finally:
                 self.noforking -= 1
-        return self.formula(node, self.spec_frame(fr))
+        try:
+            return self.formula(node, self.spec_frame(fr))
+        except PyExc as e:
+            if e.etype == 'NameError':
+                # the clause names a local of the verified function that no longer exists (renamed / restructured code):
+                # a proof-maintenance problem, not an exception of the function under contract
+                raise Unsupported(f'contract clause refers to a name the code no longer has ({e}); clause: {src[:80]}')
+            raise
 
     def formula(self, node, fr):
         """Evaluate a boolean contract expression to a z3 Bool.  `implies`, `and`, `or` at this level are
@@ -1358,6 +1375,8 @@ class Interp:
                 return FuncVal(m, None, m.cls)
             ca = self.repo.find_class_assign(cls, name)
             if ca is not None:
+                if any(isinstance(b, ast.Name) and b.id == 'Enum' for b in ca[0].base_exprs) and not name.startswith('_'):
+                    return EnumMember.of(ca[0], name, self.class_attr(ca[0], name))      # plain Enum: not an int
                 return self.class_attr(ca[0], name)
             e = lib.enum_member(self, cls, name)
             if e is not lib.NOTFOUND:
